@@ -1,3 +1,114 @@
 package main
 
-func cmdSelftest(args []string) int { return 2 }
+import (
+	"flag"
+	"fmt"
+	"os"
+	"os/exec"
+	"strings"
+	"sync"
+
+	"gfverif/world"
+)
+
+// cmdSelftest proves properties of the simulator itself.
+//
+//	gfsim selftest determinism  [--prop P] [--seeds N] [--procs K]   same seed => same event log, across fresh
+//	                                                                  processes at GOMAXPROCS 1/4/16 and in-process
+//	gfsim selftest transparency [--prop P] [--seeds N]               recorders/oracles off => byte-identical logs
+func cmdSelftest(args []string) int {
+	if len(args) == 0 {
+		usage()
+	}
+	fs := flag.NewFlagSet("selftest", flag.ExitOnError)
+	prop := fs.String("prop", "C05", "profile to run")
+	seeds := fs.Int("seeds", 40, "number of seeds")
+	procs := fs.Int("procs", 30, "fresh processes per seed (determinism)")
+	one := fs.Uint64("one", 0, "(internal) print the log digest of one seed")
+	variant := fs.String("variant", "faults", "(internal)")
+	fs.Parse(args[1:])
+	switch args[0] {
+	case "digest":
+		r := world.RunOne(*prop, *one, *variant, nil)
+		fmt.Printf("%s %d %d\n", r.LogDigest, r.Calls, len(r.Tape))
+		return 0
+	case "determinism":
+		self, _ := os.Executable()
+		bad := 0
+		total := 0
+		for i := 0; i < *seeds; i++ {
+			s := runSeed(envSeed(), *prop, "selftest", i)
+			v := world.VariantFor(i)
+			a := world.RunOne(*prop, s, v, nil)
+			b := world.RunOne(*prop, s, v, nil)
+			c := world.RunOne(*prop, s, v, a.Tape) // replay of the recorded tape
+			ref := a.LogDigest
+			if b.LogDigest != ref || c.LogDigest != ref {
+				fmt.Printf("seed %d: in-process executions differ: %s %s %s\n", s, ref, b.LogDigest, c.LogDigest)
+				bad++
+			}
+			var wg sync.WaitGroup
+			var mu sync.Mutex
+			sem := make(chan struct{}, 16)
+			for k := 0; k < *procs; k++ {
+				wg.Add(1)
+				sem <- struct{}{}
+				go func(k int) {
+					defer wg.Done()
+					defer func() { <-sem }()
+					cmd := exec.Command(self, "selftest", "digest", "--prop", *prop, "--one", fmt.Sprint(s), "--variant", v)
+					cmd.Env = append(os.Environ(), fmt.Sprintf("GOMAXPROCS=%d", []int{1, 4, 16}[k%3]))
+					out, err := cmd.Output()
+					mu.Lock()
+					defer mu.Unlock()
+					total++
+					got := strings.Fields(string(out))
+					if err != nil || len(got) == 0 || got[0] != ref {
+						fmt.Printf("seed %d: fresh process %d (GOMAXPROCS=%d) gave %q, in-process %s\n", s, k, []int{1, 4, 16}[k%3], strings.TrimSpace(string(out)), ref)
+						bad++
+					}
+				}(k)
+			}
+			wg.Wait()
+		}
+		fmt.Printf("determinism: %d seeds x (3 in-process + %d fresh processes at GOMAXPROCS 1/4/16) = %d process runs, %d divergences\n", *seeds, *procs, total, bad)
+		if bad > 0 {
+			return 1
+		}
+		return 0
+	case "transparency":
+		bad := 0
+		for i := 0; i < *seeds; i++ {
+			s := runSeed(envSeed(), *prop, "selftest", i)
+			v := world.VariantFor(i)
+			a := world.RunOne(*prop, s, v, nil)
+			// same tape, recorders off and every oracle/observer off
+			b := world.RunOne(*prop, s, v, a.Tape, func(cfg *world.Config) {
+				cfg.NoRecorders = true
+				cfg.Oracles = nil
+				cfg.Observe = nil
+				cfg.Fork = false
+			})
+			if a.LogDigest != b.LogDigest && len(a.Violations) == 0 {
+				fmt.Printf("seed %d: event log differs with observers off (%s vs %s)\n", s, a.LogDigest, b.LogDigest)
+				for j := range a.Log {
+					if j >= len(b.Log) || a.Log[j] != b.Log[j] {
+						fmt.Printf("  first difference at line %d:\n    %s\n", j, clipS(a.Log[j], 400))
+						if j < len(b.Log) {
+							fmt.Printf("    %s\n", clipS(b.Log[j], 400))
+						}
+						break
+					}
+				}
+				bad++
+			}
+		}
+		fmt.Printf("transparency: %d seeds of profile %s, %d logs changed when recorders and oracles were switched off\n", *seeds, *prop, bad)
+		if bad > 0 {
+			return 1
+		}
+		return 0
+	}
+	usage()
+	return 2
+}
